@@ -16,6 +16,7 @@ VARIANTS = [2, 3, 255, 256, 257]
 
 class C02(Check):
     PROP = "C02"
+    CRASH_ORACLE = "C02.lenset"
     WORLD = "X"
     RULE = ("each run = one generated namespace (all primitive widths, nested arrays / structures / unions / delimited types, random "
             "field orders) plus one definition with arrays at the prefix-width boundary capacities (255/256, 65535/65536, "
